@@ -2646,6 +2646,7 @@ func (p *parser) parseLambdaExpr(allowTuple, allowCmd, allowRangeExpr bool) (x a
 		var rhs []ast.Expr
 		var body *ast.BlockStmt
 		var lhsHasParen, rhsHasParen bool
+		var last token.Pos // end of the lambda: just after its last token, not the start of the next one
 		p.next()
 		switch p.tok {
 		case token.LPAREN: // (
@@ -2659,13 +2660,14 @@ func (p *parser) parseLambdaExpr(allowTuple, allowCmd, allowRangeExpr bool) (x a
 				}
 				p.next()
 			}
-			p.expect(token.RPAREN)
+			last = p.expect(token.RPAREN) + 1
 		case token.LBRACE: // {
 			p.openLabelScope() // a lambda body is a function body: labels are local to it
 			body = p.parseBlockStmt()
 			p.closeLabelScope()
 		default:
 			rhs = []ast.Expr{p.parseExpr(false, false, false)}
+			last = rhs[0].End()
 		}
 		var lhs []*ast.Ident
 		if x != nil {
@@ -2707,7 +2709,7 @@ func (p *parser) parseLambdaExpr(allowTuple, allowCmd, allowRangeExpr bool) (x a
 		}
 		return &ast.LambdaExpr{
 			First:       first,
-			Last:        p.pos,
+			Last:        last,
 			Lhs:         lhs,
 			Rarrow:      rarrow,
 			Rhs:         rhs,
